@@ -351,7 +351,11 @@ func (c *cryptoSigner) Sign(rand io.Reader, digest []byte, opts crypto.SignerOpt
 		// Check of signature is raw concatenation of r and s, or if it's ASN.1.
 		// One way to do it is to check the signature size. If it's exactly 2 times the size of curve size
 		// then it's raw. ANS.1 will always have more bytes.
-		curve := c.publicKey.(*ecdsa.PublicKey).Curve
+		pub, ok := c.publicKey.(*ecdsa.PublicKey)
+		if !ok {
+			return nil, fmt.Errorf("public key material is %T, but the key's cryptographic algorithm is %s", c.publicKey, ttlv.EnumStr(c.alg))
+		}
+		curve := pub.Curve
 		if len(resp.SignatureData) == 2*((curve.Params().BitSize+7)/8) {
 			// Need to convert to ASN.1
 			resp.SignatureData, err = convertRawECDSAToASN1DER(resp.SignatureData, curve)
